@@ -212,6 +212,7 @@ fn session_line(c: &str, w: &World) -> String {
         "all" => "SELECT x FROM t;", "count" => "SELECT COUNT(*) AS n FROM t;", "group" => "SELECT x, COUNT(*) AS n FROM t GROUP BY x;",
         "limit1" => "SELECT x FROM t LIMIT 1;", "selw" => "SELECT z FROM w;", "dist" => "SELECT DISTINCT z FROM w;",
         "rea" => "SELECT x FROM t WHERE regex_matches(x, '^a');", "reb" => "SELECT x FROM t WHERE regex_matches(x, '^b');",
+        "redefj" => "CREATE TABLE j(l4 = '^(..)=(.)$', l4[1] => x TEXT, l4[1] => y TEXT);",
         "createw" => "CREATE TABLE w(l3 = '(.)', l3[1] => z TEXT);", "bad" => "SELEC;", "exit" => "exit", "dt" => "\\d t", "dw" => "\\d w",
         o => panic!("session command {}", o)
     }.to_string()
